@@ -189,6 +189,14 @@ pub enum Stmt {
     ACancel(usize),
     /// lru: `lock_entries_unlocked_for_at_least(0)`; the guards are dropped again at once, in order
     Expire,
+    /// `lock_all_entries[_owned]()` polled once (the snapshot section); the thread keeps the stream
+    SOpen { owned: bool },
+    /// one `poll_next` by hand; a yielded guard is kept in the thread's list of stream guards
+    SNext,
+    /// drop the oldest guard the stream has yielded
+    SDropG,
+    /// drop the stream
+    SClose,
 }
 
 fn parse_stmt(s: &str) -> Option<Stmt> {
@@ -225,6 +233,11 @@ fn parse_stmt(s: &str) -> Option<Stmt> {
         ["count"] => Stmt::Count,
         ["keys"] => Stmt::Keys,
         ["expire"] => Stmt::Expire,
+        ["sopen"] => Stmt::SOpen { owned: false },
+        ["sopeno"] => Stmt::SOpen { owned: true },
+        ["snext"] => Stmt::SNext,
+        ["sdropg"] => Stmt::SDropG,
+        ["sclose"] => Stmt::SClose,
         _ => return None,
     })
 }
@@ -247,6 +260,10 @@ impl fmt::Display for Stmt {
             Stmt::APoll(slot) => write!(f, "apoll {slot}"),
             Stmt::ACancel(slot) => write!(f, "acancel {slot}"),
             Stmt::Expire => write!(f, "expire"),
+            Stmt::SOpen { owned } => write!(f, "{}", if *owned { "sopeno" } else { "sopen" }),
+            Stmt::SNext => write!(f, "snext"),
+            Stmt::SDropG => write!(f, "sdropg"),
+            Stmt::SClose => write!(f, "sclose"),
         }
     }
 }
